@@ -45,7 +45,7 @@ def one(m, tests):
                 if rc != 0:
                     res['status'] = 'breaks-tests'; res['detail'] = out[-400:]; return res
         env = dict(os.environ, GOFLAGS='-mod=vendor', GOPROXY='off', GOSUMDB='off', GOTOOLCHAIN='local', GOWORK='off')
-        rc, out = run([VERIF + '/bin/verif', 'check', '-property', m['property'], '-repo', wt, '-verif', VERIF, '-no-evidence'], env=env)
+        rc, out = run([os.environ.get('VERIF_BIN', VERIF + '/bin/verif'), 'check', '-property', m['property'], '-repo', wt, '-verif', VERIF, '-no-evidence'], env=env)
         viol = [l for l in out.splitlines() if l.startswith('VIOLATED') or l.startswith('UNDECIDED')]
         res['reported'] = [l.split(' ')[2] for l in viol][:12]
         exp = m.get('expect')
